@@ -162,8 +162,10 @@ def check(prog, run):
     fr = prog.get_func("py_gql.execution.executor", "Executor.field_resolver")
 
     def chain(f, var):
-        defs = [n for n in own_nodes(f.node) if isinstance(n, ast.Assign) and ast.unparse(n.targets[0]) == var]
-        if len(defs) != 1 or not isinstance(defs[0].value, ast.BoolOp) or not isinstance(defs[0].value.op, ast.Or):
+        # the fallback chain is the one `a or b or c` assignment whose operands read *resolver attributes (the local's name is only a hint)
+        defs = [n for n in own_nodes(f.node) if isinstance(n, ast.Assign) and isinstance(n.value, ast.BoolOp) and isinstance(n.value.op, ast.Or)
+                and any(isinstance(x, ast.Attribute) and "resolver" in x.attr for v in n.value.values for x in ast.walk(v))]
+        if len(defs) != 1:
             return None, defs[0] if defs else None
         out = []
         for v in defs[0].value.values:
@@ -197,11 +199,15 @@ def check(prog, run):
     run.looked_at(vs)
     from .. import boolx
     ok = True
+    vnames = [t.id for x in own_nodes(vs.node) if isinstance(x, ast.Assign) and isinstance(x.value, ast.Call)
+              and ast.unparse(x.value.func).split(".")[-1] == "SchemaValidator" for t in x.targets if isinstance(t, ast.Name)]
+    shapes.require(len(vnames) == 1, "C13.V3: validate_schema does not build one SchemaValidator")
+    vname = vnames[0]
     for has_errors in (True, False):
         def decide(t, has_errors=has_errors):
-            if t == "validator":
+            if t == vname:
                 return not has_errors
-            if t == "validator.errors":
+            if t == "%s.errors" % vname:
                 return has_errors
             return None
         try:
@@ -210,7 +216,7 @@ def check(prog, run):
             raise AnalysisError("C13.V3: %s" % e)
         for kind, st, env in vexits:
             if has_errors:
-                good = kind == "raise" and st.exc is not None and "SchemaValidationError(validator.errors)" in " ".join(ast.unparse(st.exc).split())
+                good = kind == "raise" and st.exc is not None and ("SchemaValidationError(%s.errors)" % vname) in " ".join(ast.unparse(st.exc).split())
             else:
                 good = kind != "raise"
             ok = ok and good
